@@ -40,6 +40,14 @@ class SdkDriver:
             if key not in self.entry_handles:
                 self.entry_handles[key] = arr.get_future_index(idx)
             return self.entry_handles[key]
+        if "reg" in idx:
+            # one long-lived handle per (array, register handle): created once, used again after the register handle was
+            # measured into again
+            key = (array, idx["reg"])
+            handles = self.__dict__.setdefault("reg_entry_handles", {})
+            if key not in handles:
+                handles[key] = arr.get_future_index(self.regs[idx["reg"]])
+            return handles[key]
         if "at" in idx:
             from netqasm.sdk.futures import Future
             inner = self.entry(idx["at"]["array"], idx["at"]["idx"])
@@ -85,6 +93,8 @@ class SdkDriver:
     def top_block(self, stmts):
         """Top-level statements of a flush segment: each is one completed SDK operation."""
         for st in stmts:
+            if getattr(self, "before_top", None) is not None:
+                self.before_top(st)
             if self.on_top is not None:
                 self.on_top(self, st)
             else:
@@ -198,15 +208,31 @@ class SdkDriver:
                 conn.loop_body(lbody, st["stop"], st["start"], st["step"], reg)
         elif op == "foreach":
             arr = self.arrays[st["array"]]
-            if st.get("idxvar"):
-                with arr.enumerate() as (i, v):
-                    self.vars[st["idxvar"]] = i
-                    self.futs[st["var"]] = v
-                    self.block(st["body"])
+            # every other loop over an array re-enters the context object of an earlier loop over it (a host that keeps
+            # `each = arr.foreach()` around), unless that one is still open around this one
+            kept = self.__dict__.setdefault("kept_contexts", {})
+            active = self.__dict__.setdefault("active_contexts", set())
+            self._n_foreach = getattr(self, "_n_foreach", 0) + 1
+            ckey = (st["array"], bool(st.get("idxvar")))
+            cm = kept.get(ckey) if self._n_foreach % 2 == 0 else None
+            if cm is None or id(cm) in active:
+                cm = arr.enumerate() if st.get("idxvar") else arr.foreach()
+                kept[ckey] = cm
             else:
-                with arr.foreach() as v:
-                    self.futs[st["var"]] = v
-                    self.block(st["body"])
+                self.reentered_contexts = getattr(self, "reentered_contexts", 0) + 1
+            active.add(id(cm))
+            try:
+                if st.get("idxvar"):
+                    with cm as (i, v):
+                        self.vars[st["idxvar"]] = i
+                        self.futs[st["var"]] = v
+                        self.block(st["body"])
+                else:
+                    with cm as v:
+                        self.futs[st["var"]] = v
+                        self.block(st["body"])
+            finally:
+                active.discard(id(cm))
         elif op == "until":
             with conn.loop_until(st["max"]) as loop:
                 self.vars[st["var"]] = loop.loop_register
